@@ -9,6 +9,18 @@ AX_R = ('axioms: the three real-number axioms of the Coq standard library (Class
         'sig_forall_dec, FunctionalExtensionality.functional_extensionality_dep) where Reals are used; ')
 
 CHECKS = {
+    'C18': dict(
+        technique='Coq proof (list induction, lia) about a hand-written executable model of the scatangle block parser, writer and greedy binning; vm_compute correspondence against the real functions on generated files',
+        text='Theorems in coq/Props/C18.v for every sample list, station count and bin size: the weights of the bins add up to the weights of '
+             'all input samples; every bin keeps one original record; every input sample is kept or was merged into a kept sample all of '
+             'whose station angles are within half the bin size; no two kept samples could have been merged; a zero bin size merges '
+             'nothing; reading what the writer wrote returns the same records, with or without the trailing blank line. No unit test '
+             'bins samples and compares total weight or round-trips the writer.',
+        note='closed under the global context (no axioms). The model is hand-written: tied to the code only by the correspondence run '
+             '(parse, bin and write-read of generated files compared inside Coq, integer-coded tenths of a degree). Text splitting and '
+             'float() are trusted glue; all records of a file are assumed to list the same stations; sub-sampling uses numpy.random and '
+             'only its size/membership is checked; the compiled cscatangle path is unavailable (C20).',
+        design='6 C18'),
     'C19': dict(
         technique='Coq proof about hand-written executable models: projection over abstract arithmetic (theorems at R, bit-exact PrimFloat execution against spherical_projection.py) and an integer-coded result container (list induction; vm_compute correspondence against MTData / unique_columns)',
         text='Theorems in coq/Props/C19.v: every unit vector that is shown keeps its azimuth and lands at radius 2 sin(t/2) (equal area) or '
